@@ -68,11 +68,11 @@ for fid, fn in enumerate(MFIELDS):
                     shape={"method": fn, "arguments": nargs, "receiver": rkn, "argument kinds": [KINDS[k] for k in ks]},
                     contract_stubs=["text kernels (slice, find, replace, trim, to_uppercase, to_lowercase, to_number, len, join) -> arbitrary result of their type"])
 
-add("index_target_assign", "6.f", "index_target_step!(index_target_assign, true);", input_class="index-target:assign",
-    shape={"statement": "f()[0] get v", "base of the index chain": "a call"})
-add("index_target_method", "6.f", "index_target_step!(index_target_method, false);", input_class="index-target:method",
-    shape={"statement": "f()[0].push(v)", "base of the index chain": "a call"})
-
+add("index_target_flatten", "6.f", "index_target_step!(index_target_flatten);", input_class="index-target",
+    shape={"statements": "f()[0] get v / f()[0].push(v)", "base of the index chain": "a call", "routine": "flatten_index_target (what both callers start with)"})
+# 6.h (global built-ins: `command(x)`, `typeof(x)` through eval_builtin_call) is NOT registered: the argument vector lives in arena
+# memory, its drop re-reads the element tags symbolically, and the instances ran out of memory at 12 GB (typeof: 104 s, command: OOM).
+# The harness (builtin_step!) stays in the file; the `command(1)` crash repaired with d9eb9de was confirmed natively only.
 add("bare_member", "6.g", "", input_class="bare-member", shape={"expression": "x.len (a member access that is not called)"})
 add("callee_not_a_name", "6.g", "", input_class="callee", shape={"expression": "a[0]() (the callee is neither a name nor a method)"},
     contract_stubs=["eval_member_call / eval_builtin_call / exec_block_with_flow -> cut (not reached for this callee)"])
@@ -90,7 +90,7 @@ PROP = Property(
         O("6.d", "an `if to say` / `jasi` condition of any runtime kind ends with the body entered, skipped, or a reported runtime error",
           ["runtime::Runtime::exec_stmt"], "2 statements x 5 kinds"),
         O("6.f", "an index chain whose base is not a variable (assignment target or receiver of a mutating method) is a reported error",
-          ["runtime::Runtime::assign_index", "runtime::Runtime::get_mutable_array", "runtime::Runtime::flatten_index_target"], "one index on a call result"),
+          ["runtime::Runtime::flatten_index_target"], "one index on a call result; the callers (assign_index, get_mutable_array) propagate the error with `?` (read, not decided)"),
         O("6.g", "expression shapes the parser builds and the static checker lets through (`x.len` without a call, `a[0]()`, `f()()`) are reported errors",
           ["runtime::Runtime::eval_expr", "runtime::Runtime::eval_function_call"], "one node each"),
         O("6.e", "a method call on a receiver of any runtime kind with any number and kinds of arguments ends with a value or a reported runtime error",
@@ -109,6 +109,6 @@ PROP = Property(
     stubs=["Runtime::eval_expr (recursive calls) -> prepared-value stub", "Runtime::check_stack -> Ok", "core::fmt::write -> no-op",
            "ArenaString::with_capacity_in/push_str -> container model", "UnixVirtualMemory::* -> 256-byte model arenas",
            "PoolSet::new/contains -> static two-class pool"],
-    outside=["host values (process commands/results) as operands", "member calls, function calls, statements", "non-empty arrays as operands (the drop of the array inside the step did not fit: 8 GB / 334 s)",
+    outside=["global built-in calls (eval_builtin_call: the argument vector's drop did not fit)", "host values (process commands/results) as operands", "member calls, function calls, statements", "non-empty arrays as operands (the drop of the array inside the step did not fit: 8 GB / 334 s)",
              "strings longer than 2 bytes or non-ASCII", "the composition over whole programs"],
 )
